@@ -140,14 +140,32 @@ fn body_param(i: &[u8]) -> IResult<&[u8], BodyParams> {
     ))(i)
 }
 
+// Nesting of body structures and of body extension lists is driven by the
+// input; bound it so that a hostile response cannot exhaust the stack.
+const MAX_NESTING: usize = 32;
+
+fn nesting_too_deep<T>(i: &[u8]) -> IResult<&[u8], T> {
+    Err(nom::Err::Error(nom::error::make_error(
+        i,
+        nom::error::ErrorKind::TooLarge,
+    )))
+}
+
 fn body_extension(i: &[u8]) -> IResult<&[u8], BodyExtension> {
+    body_extension_at(i, 0)
+}
+
+fn body_extension_at(i: &[u8], depth: usize) -> IResult<&[u8], BodyExtension> {
+    if depth >= MAX_NESTING {
+        return nesting_too_deep(i);
+    }
     alt((
         map(number, BodyExtension::Num),
         // Cannot find documentation on character encoding for body extension values.
         // So far, assuming UTF-8 seems fine, please report if you run into issues here.
         map(nstring_utf8, |v| BodyExtension::Str(v.map(Cow::Borrowed))),
         map(
-            parenthesized_nonempty_list(body_extension),
+            parenthesized_nonempty_list(|i| body_extension_at(i, depth + 1)),
             BodyExtension::List,
         ),
     ))(i)
@@ -237,7 +255,7 @@ fn body_type_text(i: &[u8]) -> IResult<&[u8], BodyStructure> {
     )(i)
 }
 
-fn body_type_message(i: &[u8]) -> IResult<&[u8], BodyStructure> {
+fn body_type_message(i: &[u8], depth: usize) -> IResult<&[u8], BodyStructure> {
     map(
         tuple((
             tag_no_case("\"MESSAGE\" \"RFC822\""),
@@ -246,7 +264,7 @@ fn body_type_message(i: &[u8]) -> IResult<&[u8], BodyStructure> {
             tag(" "),
             envelope,
             tag(" "),
-            body,
+            |i| body_at(i, depth + 1),
             tag(" "),
             number,
             body_ext_1part,
@@ -277,9 +295,14 @@ fn body_type_message(i: &[u8]) -> IResult<&[u8], BodyStructure> {
     )(i)
 }
 
-fn body_type_multipart(i: &[u8]) -> IResult<&[u8], BodyStructure> {
+fn body_type_multipart(i: &[u8], depth: usize) -> IResult<&[u8], BodyStructure> {
     map(
-        tuple((many1(body), tag(" "), string_utf8, body_ext_mpart)),
+        tuple((
+            many1(|i| body_at(i, depth + 1)),
+            tag(" "),
+            string_utf8,
+            body_ext_mpart,
+        )),
         |(bodies, _, subtype, ext)| BodyStructure::Multipart {
             common: BodyContentCommon {
                 ty: ContentType {
@@ -298,11 +321,18 @@ fn body_type_multipart(i: &[u8]) -> IResult<&[u8], BodyStructure> {
 }
 
 pub(crate) fn body(i: &[u8]) -> IResult<&[u8], BodyStructure> {
+    body_at(i, 0)
+}
+
+fn body_at(i: &[u8], depth: usize) -> IResult<&[u8], BodyStructure> {
+    if depth >= MAX_NESTING {
+        return nesting_too_deep(i);
+    }
     paren_delimited(alt((
         body_type_text,
-        body_type_message,
+        |i| body_type_message(i, depth),
         body_type_basic,
-        body_type_multipart,
+        |i| body_type_multipart(i, depth),
     )))(i)
 }
 
